@@ -80,7 +80,7 @@ def run(eng, R):
         ok = False
         for n in ast.walk(f.node):
             if isinstance(n, ast.If) and "err_val.ndim == 0" in " ".join(ast.unparse(n.test).split()):
-                body = " ".join(ast.unparse(ast.Module(body=n.body, type_ignores=[])).split())
+                body = common.src_of(ast.Module(body=n.body, type_ignores=[]))
                 ok = ok or ("err_val = np.ones(" in body and "* err_val" in body and ("self.size" in body or "data_size" in body))
         R.ob("S-bcast", "%s.%s" % (cname, fname), ok, (f.file, f.lineno), "%s.%s does not broadcast a scalar uncertainty to a constant vector of the data size" % (cname, fname))
 
@@ -112,19 +112,19 @@ def run(eng, R):
                 R.ob("S-wrap", "%s:%s" % (fn, nm), ok, (f.file, c.lineno), "%s forwards `%s` with axis=%s correlated=%s relative=%s" % (fn, nm, axis, got_cor, got_rel))
     for helper_owner, hname in (("module", "_add_error_to_fit_generic"),):
         f = wm.functions.get(hname)
-        src = " ".join(ast.unparse(f.node).split())
+        src = common.src_of(f.node)
         ok = "fit.add_error(_err, correlation=1.0, relative=relative, reference=_reference)" in src and "fit.add_matrix_error(error, 'cov', relative=relative, reference=_reference)" in src \
             and "fit.add_error(error, relative=relative, reference=_reference)" in src
         R.ob("S-wrap", "_add_error_to_fit_generic", ok, (f.file, f.lineno), "the generic helper must forward correlated errors as fully correlated simple errors, 2-d arrays as covariance matrices, else simple errors - each with the relative flag")
     xf = wm.functions["xy_fit"]
-    src = " ".join(ast.unparse(xf.node).split())
+    src = common.src_of(xf.node)
     ok = "_fit.add_error(axis, _err, correlation=1.0, relative=relative, reference=_reference)" in src and "_fit.add_matrix_error(axis, error, 'cov', relative=relative, reference=_reference)" in src \
         and "_fit.add_error(axis, error, relative=relative, reference=_reference)" in src
     R.ob("S-wrap", "xy_fit._add_error_to_fit", ok, (xf.file, xf.lineno), "the xy helper must forward axis, the relative flag and the reference to add_error / add_matrix_error")
 
     # ---- percent shorthand
     pe = p.resolve_name(p.module("kafe2.fit.representation.error.common_error_tools"), "process_error_sources")
-    src = " ".join(ast.unparse(pe.node).split())
+    src = common.src_of(pe.node)
     rel_ok, abs_ok, n_rel, n_abs = True, True, 0, 0
     for c in ast.walk(pe.node):
         if isinstance(c, ast.Call) and isinstance(c.func, ast.Name) and c.func.id == "add_error_to_container" and c.args and common.const_str(c.args[0]) == "simple":
